@@ -29,6 +29,11 @@ TRUSTED = [
     "`enumerate`, `continue`, `break`, `return` inside the loop, bool flags, `+=` on a non-negative int, `s[:i]` = List.take, `.rstrip()` = the model's rstrip over the "
     "six ASCII blanks, str = List Char; a source outside the subset is reported as a broken obligation); the character-level differential tie exercises the same two functions "
     "independently of the translator",
+    "W21: the same translator, shape \"lines\", for `_collect_block` (its reading of `while i < len(lines)` with `lines[i]`, `i += 1` on every path, `.append`, `break`/`continue`, "
+    "`not lines[i].strip()` = made of the six ASCII blanks, `_indent_of(...)` = the translated `_indent_of`, `lines[start]` with `start` in range and non-negative, the tuple result); "
+    "`gen_collectBlock` proves the translated function equal to the raw-line model `collectBlockAt`, and `collectBlock_is_raw` carries that to the collector over classified lines "
+    "under the hypothesis — established by the harness's classification, checked by the forest tie, not proved — that a line is classified blank iff its text is made of blanks "
+    "and its recorded indentation is `_indent_of` of its text; the raw-line tie `collect|…` exercises `_collect_block` independently of the translator",
     "hook REDUINO_VERIF=1 in parser.py (records the lines that fall through `# unknown -> ignore` and the skipped print calls)",
     "hollow-body scripts: g++ 12 + harness/mockcore (Serial.println trace) and CPython running the same script against the host SerialMonitor",
 ]
@@ -351,7 +356,7 @@ def hollow_bodies(ctx):
 
 
 def run(ctx: Ctx) -> int:
-    ctx.prove(["Reduino.Props.C07", "Reduino.GenOb.Layout"])
+    ctx.prove(["Reduino.Props.C07", "Reduino.GenOb.Layout"])   # GenOb.Layout: gen_indentOf, gen_stripInlineComment, gen_collectBlock (W21)
     common.fresh_import()
     P = importlib.import_module("Reduino.transpile.parser")
     E = importlib.import_module("Reduino.transpile.emitter")
@@ -376,6 +381,26 @@ def run(ctx: Ctx) -> int:
         r = P._strip_inline_comment(s)
         if not (r == s or (s.startswith(r) or s[: len(r)].rstrip() == r)):
             ctx.fail("strip:not-a-prefix", f"_strip_inline_comment({s!r}) = {r!r}", {"text": s})
+    # ---- raw-line tie of `_collect_block` (W21): the model `collectBlockAt` — the definition `gen_collectBlock` proves the translated source equal to —
+    # against the function itself, on random lists of raw lines (blank lines of every blank kind, spaces and tabs, dedents, comment lines)
+    pieces = ["", " ", "\t", "  \t ", "x = 1", "# c", "if a:", "else:", "pass  # t", "\x0c", "\r"]
+    reqs = []
+    for _ in range(ctx.n(400, 4000)):
+        lines = [rng.choice(["", " ", "  ", "    ", "\t", " \t", "\t ", "      "][: rng.choice([3, 8])]) * rng.randint(0, 2) + rng.choice(pieces) for _ in range(rng.randint(1, 9))]
+        reqs.append((lines, rng.randrange(len(lines))))
+    mc = ctx.lean.drive([f"collect|{st}|{' '.join(hexs(l) for l in lines)}" for lines, st in reqs])
+    for (lines, st), got in zip(reqs, mc):
+        ctx.cov["traces_validated_against_impl"] += 1
+        ctx.case("collect:" + repr((lines, st)), nontrivial=len(lines) > st + 1)
+        blk, end = P._collect_block(list(lines), st)
+        want = f"{end}|{' '.join(hexs(l) for l in blk)}"
+        if got != want:
+            ctx.tie_diff("tie collectBlockAt vs _collect_block", repr((lines, st)), got, want)
+        # property at line level: the block is the contiguous run after the header, and the line that ends it is non-blank and not deeper than the header
+        ok = blk == lines[st + 1:end] and all((not l.strip()) or P._indent_of(l) > P._indent_of(lines[st]) for l in blk) \
+            and (end == len(lines) or (lines[end].strip() and P._indent_of(lines[end]) <= P._indent_of(lines[st])))
+        if not ok:
+            ctx.fail("collect:not-the-indented-run", f"_collect_block({lines!r}, {st}) = {(blk, end)!r}", {"lines": lines, "start": st})
     # ---- forest tie + re-layout oracle
     for it in range(ctx.n(150, 2500)):
         sg = S(rng)
